@@ -443,7 +443,26 @@ def enc_tail_probe(spec, seen):
         lst(tr), b(ok))
 
 
-VAL_ONLY = (DFv, DFvl, ASvs, DFd)
+class _FalsyValidator:
+    """a validator object whose truth value is False: all three read sites must still run it (fix c16a127)"""
+    def __call__(self, inst, a, v):
+        _rec(inst, a, v)
+
+    def __bool__(self):
+        return False
+
+
+@attrs.define
+class DFfalsy:
+    x: int = attrs.field(default=0, validator=_FalsyValidator())
+
+
+@attr.s(on_setattr=setters.validate)
+class ASfalsy:
+    x = attr.ib(default=0, validator=_FalsyValidator())
+
+
+VAL_ONLY = (DFv, DFvl, ASvs, DFd, DFfalsy, ASfalsy)
 
 NONBOOL_POOL = [1, 0, None, "yes", 1.0]
 
@@ -503,6 +522,7 @@ def real_run(init, ops, probes=None):
     """ops: list of tuples ('sd', bool) | ('sr', value) | ('enter',) | ('exit', 'n'|'e')."""
     _config._run_validators = init
     open_cms = []
+    pending = []          # managers created but not entered yet
     seen = []
     disagreements = []
     probe_seen = {"pipes": [], "tails": []}
@@ -518,6 +538,18 @@ def real_run(init, ops, probes=None):
                     cm = validators.disabled()
                     cm.__enter__()
                     open_cms.append(cm)
+                elif o[0] == "create":
+                    pending.append(validators.disabled())
+                elif o[0] == "enterc":
+                    # enter a manager created earlier (oldest first / newest first by o[1]); none pending: create now
+                    cm = (pending.pop(0) if o[1] == "old" else pending.pop()) if pending else validators.disabled()
+                    cm.__enter__()
+                    open_cms.append(cm)
+                elif o[0] == "calldec":
+                    before = _config._run_validators
+                    inside = _decorated_probe()
+                    if inside is not True:
+                        disagreements.append("inside a function decorated with @validators.disabled() get_disabled() was %r" % (inside,))
                 elif o[0] == "exit":
                     if not open_cms:
                         oc = "NoOpenContext"
@@ -559,13 +591,18 @@ def real_run(init, ops, probes=None):
 
 
 def enc_op(o):
+    if o[0] == "create":
+        return "XCreate"
+    if o[0] == "calldec":
+        return "XCallDecorated"
     if o[0] == "sd":
-        return "OSetDisabled %s" % b(o[1])
+        return "(XBase (OSetDisabled %s))" % b(o[1])
     if o[0] == "sr":
-        return "OSetRun (ABool %s)" % b(o[1]) if isinstance(o[1], bool) else "OSetRun ANonBool"
-    if o[0] == "enter":
-        return "OEnter"
-    return "OExit %s" % ("ExitNormal" if o[1] == "n" else "ExitRaise")
+        return "(XBase (OSetRun (ABool %s)))" % b(o[1]) if isinstance(o[1], bool) else "(XBase (OSetRun ANonBool))"
+    if o[0] in ("enter", "enterc"):
+        # the model: entering a manager is OEnter at the state of that moment, whenever it was created
+        return "(XBase OEnter)"
+    return "(XBase (OExit %s))" % ("ExitNormal" if o[1] == "n" else "ExitRaise")
 
 
 def enc_obs(ob):
@@ -596,6 +633,28 @@ def mk_case(init, ops, probes=None):
 
 ALPHABET = [("sd", True), ("sd", False), ("sr", True), ("sr", False), ("sr", 1),
             ("enter",), ("exit", "n"), ("exit", "e")]
+# only in the random stream and in the deterministic "created" family
+EXTRA_OPS = [("create",), ("enterc", "old"), ("enterc", "new"), ("calldec",)]
+
+
+@validators.disabled()
+def _decorated_probe():
+    return validators.get_disabled()
+
+
+def _created_family():
+    """every way to put set-operations between the creation of up to two managers and their entry/exit"""
+    setters_ = [("sd", True), ("sd", False), ("sr", True), ("sr", False)]
+    out = []
+    for a in setters_:
+        for b_ in setters_:
+            for ex in (("exit", "n"), ("exit", "e")):
+                out.append([a, ("create",), b_, ("enterc", "old"), ex])
+                out.append([("create",), a, ("enter",), ("enterc", "old"), ex, b_, ex])
+                out.append([("create",), ("create",), a, ("enterc", "new"), b_, ("enterc", "old"), ex, ex])
+                out.append([a, ("calldec",), b_, ("calldec",)])
+                out.append([a, ("enter",), ("calldec",), b_, ("calldec",), ex])
+    return out
 
 
 def _enumerate(maxlen):
@@ -633,16 +692,21 @@ def generate(tier, seed):
             c, dis = mk_case(init, list(ops))
             cases.append(c)
             _internal.extend((c.inp, d) for d in dis)
+    for init in (True, False):
+        for ops in _created_family():
+            c, dis = mk_case(init, list(ops))
+            cases.append(c)
+            _internal.extend((c.inp, d) for d in dis)
     n_random = 300 if tier == "quick" else 3000
     for _ in range(n_random):
         n = rng.randint(maxlen + 1, 14)
         ops, depth = [], 0
         for _ in range(n):
-            cand = [o for o in ALPHABET if not (o[0] == "exit" and depth == 0)]
+            cand = [o for o in ALPHABET + EXTRA_OPS if not (o[0] == "exit" and depth == 0)]
             o = rng.choice(cand + [("enter",)] * 2 + ([("exit", "n"), ("exit", "e")] if depth else []))
             if o == ("sr", 1):
                 o = ("sr", rng.choice(NONBOOL_POOL))
-            depth += 1 if o[0] == "enter" else -1 if o[0] == "exit" else 0
+            depth += 1 if o[0] in ("enter", "enterc") else -1 if o[0] == "exit" else 0
             ops.append(o)
         c, dis = mk_case(rng.random() < 0.5, ops)
         cases.append(c)
